@@ -822,7 +822,7 @@ PROPS = {
     "C10": {"families": ["wiring"], "title": "each standard stream is connected exactly where the options say"},
     "C11": {"families": ["wiring"], "title": "nothing else is inherited"},
     "C13": {"families": ["options"], "title": "options rejected up front, accepted as documented"},
-    "C04": {"families": ["faults"], "title": "start is all-or-nothing and reports the real cause"},
+    "C04": {"families": ["faults", "env"], "title": "start is all-or-nothing and reports the real cause"},
     "C05": {"families": ["faults", "life"], "title": "no leak, no foreign or double close"},
     "C18": {"families": ["wincmd"], "title": "Windows command line and environment block",
             "level_text": "The real Windows string code (process.windows.c, utf.windows.c, compiled unchanged against a stub windows.h, under ASan+UBSan) is run on an exhaustive bounded enumeration of argument vectors and environments; every record of what the stubbed CreateProcessW received is validated by TLC against spec/WinCmdLine.tla (Split(cmdline) = argv by the documented parsing rules, exact buffer size, environment block layout).",
